@@ -137,3 +137,133 @@ def double_reduction_permutations(gamete_dosage: A[iN, 1], parent_dosage: A[iN, 
         lemma_isum_pointwise_le(arr1(lambda t: 0), arr1(lambda t: ite(gamete_dosage[t] == 2, parent_dosage[t], 0)), 0, len(gamete_dosage))
         lemma_isum_le(arr1(lambda t: 0), 0, len(gamete_dosage), 0)
         lemma_isum_nonneg(arr1(lambda t: 0), 0, len(gamete_dosage))
+
+
+# ---- dosage arrays of a trio (inputs of the gamete enumeration and of the Mendelian validity test) ----------------
+
+
+@contract("mchap.pedigree.prior.set_allelic_dosage", machine_ints=True, props=["C17"])
+def set_allelic_dosage(genotype_alleles: A[iN, 1], out: A[iN, 1]):
+    requires(len(genotype_alleles) <= 127, len(out) == len(genotype_alleles))
+    modifies(out)
+    # out[j] = copies of allele g[j] if j is its first occurrence (padding, i.e. negative entries, is skipped), else 0
+    ensures(forall(0, len(genotype_alleles), lambda j: out[j] == ite(genotype_alleles[j] >= 0 and FIRST(genotype_alleles, j), CNT(genotype_alleles, genotype_alleles[j], len(genotype_alleles)), 0)))
+    with entry():
+        with forall_intro(q, 0, len(genotype_alleles), CNT(genotype_alleles, genotype_alleles[q], 0) == 0):
+            unfold(CNT(genotype_alleles, genotype_alleles[q], 0))
+    with after_stmt("j = 0"):
+        unfold(CNT(genotype_alleles, a, 0))
+    with loop(0):
+        invariant(0 <= i, i <= max_ploidy, max_ploidy == len(genotype_alleles), len(out) == max_ploidy)
+        invariant(forall(0, max_ploidy, lambda q: 0 <= out[q] and out[q] <= i))
+        invariant(forall(0, max_ploidy, lambda q: out[q] == ite(genotype_alleles[q] >= 0 and FIRST(genotype_alleles, q), CNT(genotype_alleles, genotype_alleles[q], i), 0)))
+        with head():
+            lemma_cnt_range(genotype_alleles, genotype_alleles[i], i)
+        with tail():
+            with forall_intro(q, 0, max_ploidy, out[q] == ite(genotype_alleles[q] >= 0 and FIRST(genotype_alleles, q), CNT(genotype_alleles, genotype_alleles[q], i + 1), 0)):
+                unfold(CNT(genotype_alleles, genotype_alleles[q], i + 1))
+                if genotype_alleles[i] >= 0:
+                    if q < j:
+                        lemma_cnt_pos(genotype_alleles, j, q)
+                    if q > j:
+                        lemma_cnt_pos(genotype_alleles, q, j)
+    with loop(1):
+        decreases(i - j + ite(searching, 1, 0))
+        invariant(0 <= j, j <= i, a == genotype_alleles[i], a >= 0, CNT(genotype_alleles, a, j) == 0, len(out) == max_ploidy)
+        invariant(implies(searching, val(out) == at("loop1", out)))
+        invariant(implies(not searching, genotype_alleles[j] == a and forall(0, max_ploidy, lambda q: out[q] == at("loop1", out)[q] + ite(q == j, 1, 0))))
+        with head():
+            unfold(CNT(genotype_alleles, a, j + 1))
+            lemma_cnt_range(genotype_alleles, a, j)
+
+
+@spec_inline
+def PCOPIES(parent: A[int, 1], progeny: A[int, 1], j: int, n: int) -> int:
+    """parental copies of the progeny allele at j, reported at the first occurrence of that allele in the progeny"""
+    return ite(progeny[j] >= 0 and FIRST(progeny, j), CNT(parent, progeny[j], n), 0)
+
+
+@contract("mchap.pedigree.prior.set_parental_copies", machine_ints=True, props=["C17"])
+def set_parental_copies(parent_alleles: A[iN, 1], progeny_alleles: A[iN, 1], out: A[iN, 1]):
+    requires(len(parent_alleles) <= 127, len(out) == len(progeny_alleles))
+    modifies(out)
+    ensures(forall(0, len(progeny_alleles), lambda j: out[j] == PCOPIES(parent_alleles, progeny_alleles, j, len(parent_alleles))))
+    with entry():
+        with forall_intro(q, 0, len(progeny_alleles), CNT(parent_alleles, progeny_alleles[q], 0) == 0):
+            unfold(CNT(parent_alleles, progeny_alleles[q], 0))
+        unfold(CNT(progeny_alleles, parent_alleles[0], 0))
+    with loop(0):
+        invariant(0 <= i, i <= len(parent_alleles), len(out) == len(progeny_alleles))
+        invariant(forall(0, len(progeny_alleles), lambda q: 0 <= out[q] and out[q] <= i))
+        invariant(forall(0, len(progeny_alleles), lambda q: out[q] == PCOPIES(parent_alleles, progeny_alleles, q, i)))
+        with head():
+            hit = -1
+            unfold(CNT(progeny_alleles, parent_alleles[i], 0))
+        with tail():
+            with forall_intro(q, 0, len(progeny_alleles), out[q] == PCOPIES(parent_alleles, progeny_alleles, q, i + 1)):
+                unfold(CNT(parent_alleles, progeny_alleles[q], i + 1))
+                if hit >= 0 and q > hit:
+                    lemma_cnt_pos(progeny_alleles, q, hit)
+    with loop(1):
+        invariant(0 <= j, j <= len(progeny_alleles), a == parent_alleles[i], a >= 0, hit == -1, CNT(progeny_alleles, a, j) == 0, val(out) == at("loop1", out))
+        invariant(forall(0, j, lambda q: progeny_alleles[q] != a))
+        with head():
+            unfold(CNT(progeny_alleles, a, j + 1))
+    with after_stmt("out[j] += 1"):
+        hit = j
+
+
+@contract("mchap.pedigree.prior.set_complimentary_gamete", machine_ints=True, props=["C17"])
+def set_complimentary_gamete(dosage: A[iN, 1], gamete: A[iN, 1], out: A[iN, 1]):
+    requires(len(gamete) >= len(dosage), len(out) >= len(dosage))
+    requires(forall(0, len(dosage), lambda i: 0 <= gamete[i] and gamete[i] <= dosage[i]))
+    modifies(out)
+    ensures(forall(0, len(dosage), lambda i: out[i] == dosage[i] - gamete[i]), forall(len(dosage), len(out), lambda i: out[i] == old(out)[i]))
+    with loop(0):
+        invariant(0 <= i, i <= len(dosage), forall(0, i, lambda x: out[x] == dosage[x] - gamete[x]), forall(i, len(out), lambda x: out[x] == old(out)[x]))
+
+
+@spec
+def DUOC(progeny: A[int, 1], parent: A[int, 1], j: int, n: int, dr: bool) -> int:
+    """how many copies of the progeny allele at j the parent can have contributed: min(progeny copies, parental copies),
+    or 2 when double reduction is possible (a single parental copy transmitted twice)"""
+    return ite(dr and ite(progeny[j] >= 0 and FIRST(progeny, j), CNT(progeny, progeny[j], n), 0) >= 2 and PCOPIES(parent, progeny, j, n) == 1, 2, ite(ite(progeny[j] >= 0 and FIRST(progeny, j), CNT(progeny, progeny[j], n), 0) <= PCOPIES(parent, progeny, j, n), ite(progeny[j] >= 0 and FIRST(progeny, j), CNT(progeny, progeny[j], n), 0), PCOPIES(parent, progeny, j, n)))
+
+
+@spec
+def DUOSUM(progeny: A[int, 1], parent: A[int, 1], n: int, dr: bool, m: int) -> int:
+    decreases(m)
+    if m <= 0:
+        return 0
+    return DUOSUM(progeny, parent, n, dr, m - 1) + DUOC(progeny, parent, m - 1, n, dr)
+
+
+@lemma(shared=True)
+def lemma_duosum(c: A[int, 1], progeny: A[int, 1], parent: A[int, 1], n: int, dr: bool, m: int):
+    requires(forall(0, m, lambda j: c[j] == DUOC(progeny, parent, j, n, dr)))
+    ensures(ISUM(c, 0, m) == DUOSUM(progeny, parent, n, dr, m))
+    decreases(m)
+    unfold(ISUM(c, 0, m), DUOSUM(progeny, parent, n, dr, m))
+    if m > 0:
+        lemma_duosum(c, progeny, parent, n, dr, m - 1)
+
+
+@contract("mchap.pedigree.validation.duo_valid", machine_ints=True, props=["C17"])
+def duo_valid(progeny: A[iN, 1], parent: A[iN, 1], tau: int, lambda_: float) -> bool:
+    requires(len(progeny) <= 127, len(parent) == len(progeny), len(progeny) >= 1)
+    raises(lambda_ > 0.0 and tau != 2)
+    # C17 (PEDERR): a duo is Mendelian-valid iff the alleles the parent can have contributed cover the gamete ploidy
+    ensures(result == (DUOSUM(progeny, parent, len(progeny), lambda_ > 0.0, len(progeny)) >= tau))
+    with defs():
+        n = len(progeny)
+    with after_stmt("constraint_p = np.minimum(dosage, dosage_p)"):
+        with forall_intro(x, 0, n, constraint_p[x] == DUOC(progeny, parent, x, n, False)):
+            unfold(DUOC(progeny, parent, x, n, False))
+    with loop(0):
+        invariant(0 <= i, i <= n, len(constraint_p) == n, len(dosage) == n, val(dosage) == at("loop0", dosage))
+        invariant(forall(0, i, lambda x: constraint_p[x] == DUOC(progeny, parent, x, n, True)))
+        invariant(forall(i, n, lambda x: constraint_p[x] == DUOC(progeny, parent, x, n, False)))
+        with head():
+            unfold(DUOC(progeny, parent, i, n, True), DUOC(progeny, parent, i, n, False))
+    with exit_():
+        lemma_duosum(constraint_p, progeny, parent, n, lambda_ > 0.0, n)
